@@ -535,6 +535,25 @@ func infe(id uint16, typ string, extra []byte) []byte {
 	return fullBox("infe", 2, 0, p)
 }
 
+// infeV serialises an item-info entry of the given version: version 3 carries a 32-bit item ID,
+// versions 0 and 1 the older layout (ID, protection index, name, content type, encoding).
+func infeV(version byte, id uint16, typ string, extra []byte) []byte {
+	switch version {
+	case 3:
+		p := append(be32(uint32(id)), be16(0)...)
+		p = append(p, typ...)
+		p = append(p, 0)
+		p = append(p, extra...)
+		return fullBox("infe", 3, 0, p)
+	case 0, 1:
+		p := append(be16(id), be16(0)...)
+		p = append(p, 0) // item_name ""
+		p = append(p, extra...)
+		return fullBox("infe", version, 0, p)
+	}
+	return infe(id, typ, extra)
+}
+
 // DrawHEIF draws a HEIF-branded file whose Exif item holds the TIFF block. brand selects the
 // ftyp variant (0 heic, 1 heix, 2 mif1+heic).
 func DrawHEIF(l *core.Lane, tiff []byte, surround bool) *HEIF {
@@ -548,6 +567,12 @@ type HEIFOpts struct {
 	// InfeVariants > 0 adds that many further item-info entries of type mime/uri with empty or
 	// short names and content types (entries of 21, 22, 23 ... bytes)
 	InfeVariants int
+	// InfeVersions != 0: the further entries are written in item-info versions 3, 1 and 0 as well
+	// (chosen per entry from this value); 0: all of them in version 2
+	InfeVersions uint64
+	// IlocLastCut > 0: the item-location box is the last child of meta and its last bytes are
+	// missing (the box, and meta with it, ends that many bytes early - inside its last entry)
+	IlocLastCut int
 }
 
 func DrawHEIFOpts(l *core.Lane, tiff []byte, surround bool, ho HEIFOpts) *HEIF {
@@ -582,6 +607,11 @@ func DrawHEIFOpts(l *core.Lane, tiff []byte, surround bool, ho HEIFOpts) *HEIF {
 			extra = []byte("a\x00")
 		case 3:
 			extra = []byte("application/rdf+xml\x00")
+		}
+		if ho.InfeVersions != 0 {
+			v := []byte{3, 2, 3, 1, 0, 3, 2, 3}[(ho.InfeVersions>>(3*uint(i)))&7]
+			infes = append(infes, infeV(v, uint16(3+i), typ, extra))
+			continue
 		}
 		infes = append(infes, infe(uint16(3+i), typ, extra))
 	}
@@ -623,7 +653,19 @@ func DrawHEIFOpts(l *core.Lane, tiff []byte, surround bool, ho HEIFOpts) *HEIF {
 	for i := 0; i < ho.ExtraIloc; i++ {
 		extra = append(extra, mkIloc(0, 0, 0, 0)...)
 	}
-	metaLen := len(fullBox("meta", 0, 0, hdlr, pitm, mkIloc(0, 0, 0, 0), iinf, iprp, extra))
+	mkMeta := func(iloc []byte) []byte {
+		if ho.IlocLastCut > 0 {
+			cut := ho.IlocLastCut
+			if cut > len(iloc)-18 {
+				cut = len(iloc) - 18
+			}
+			iloc = append([]byte(nil), iloc[:len(iloc)-cut]...)
+			binary.BigEndian.PutUint32(iloc, uint32(len(iloc)))
+			return fullBox("meta", 0, 0, hdlr, pitm, iinf, iprp, extra, iloc)
+		}
+		return fullBox("meta", 0, 0, hdlr, pitm, iloc, iinf, iprp, extra)
+	}
+	metaLen := len(mkMeta(mkIloc(0, 0, 0, 0)))
 	var pre []byte
 	if surround && l.Chance(1, 3) {
 		pre = Box("free", ScreenTIFF(l.Sub().Bytes(l.Intn(100))))
@@ -631,7 +673,7 @@ func DrawHEIFOpts(l *core.Lane, tiff []byte, surround bool, ho HEIFOpts) *HEIF {
 	mdatStart := len(ftyp) + metaLen + len(pre)
 	imgOff := mdatStart + 8
 	exifOff := imgOff + len(imgData)
-	meta := fullBox("meta", 0, 0, hdlr, pitm, mkIloc(uint32(imgOff), uint32(len(imgData)), uint32(exifOff), uint32(len(item))), iinf, iprp, extra)
+	meta := mkMeta(mkIloc(uint32(imgOff), uint32(len(imgData)), uint32(exifOff), uint32(len(item))))
 	out := append([]byte(nil), ftyp...)
 	h.Top = append(h.Top, Span{"ftyp", 0, len(out)})
 	s := len(out)
